@@ -125,6 +125,16 @@ static void dest_cb(void *obj, void *priv)
     CB_LEAVE();
 }
 
+/* one function registered as constructor AND destructor (a "wipe" routine): which of the two a call is follows from where the
+ * slot lies relative to the size the vector had when the operation began (or from what the harness is doing, in the churn) */
+static int both_dir;
+static void both_cb(void *obj, void *priv)
+{
+    struct mvec *m = priv;
+    int dir = both_dir ? both_dir : (slot_of(m, obj) >= m->n ? 1 : -1);
+    if (dir > 0) cons_cb(obj, priv); else dest_cb(obj, priv);
+}
+
 static int cmp_u32(const void *a, const void *b)
 {
     uint32_t x = *(const uint32_t *)a, y = *(const uint32_t *)b;
@@ -327,8 +337,10 @@ static void v_once(const plan_t *p)
             else vec[s] = (struct cstl_vector)CSTL_VECTOR_INITIALIZER(unsigned char[es]);
             PROBE("from_initializer_macro");
         } else
+        if (mv[s].has_cons && mv[s].has_dest && (x >> 2 & 1)) { cstl_vector_init_complex(&vec[s], es, both_cb, both_cb, &mv[s]); PROBE("constructor_and_destructor_are_one_function"); } else
         cstl_vector_init_complex(&vec[s], es, mv[s].has_cons ? cons_cb : NULL, mv[s].has_dest ? dest_cb : NULL, &mv[s]);
     }
+    both_dir = 0;
 
     for (k = 0; k < p->nops; k++) {
         const op_t *o = &p->ops[k];
@@ -519,12 +531,12 @@ static void v_once(const plan_t *p)
             ncons = ndest = 0; xtor_bad = 0;
             g_inlib = 1;
             for (q = 0; q < n; q++) {
-                cstl_vector_resize(v, on + 1);
+                both_dir = 1; cstl_vector_resize(v, on + 1);
                 if (cstl_vector_size(v) != on + 1) { bad = 1; break; }
-                cstl_vector_resize(v, on);
+                both_dir = -1; cstl_vector_resize(v, on);
                 if (cstl_vector_size(v) != on) { bad = 2; break; }
             }
-            g_inlib = 0;
+            g_inlib = 0; both_dir = 0;
             if (bad) VIOL("churn", "repetition %u of grow-by-one / shrink-by-one left size %zu (was %zu)", q, cstl_vector_size(v), on);
             if (m->has_cons && (unsigned)ncons != n) VIOL("cons_count", "%u grow-by-one / shrink-by-one cycles ran the constructor %d times", n, ncons);
             if (m->has_dest && (unsigned)ndest != n) VIOL("dest_count", "%u grow-by-one / shrink-by-one cycles ran the destructor %d times", n, ndest);
@@ -682,8 +694,8 @@ static void v_gen(prng_t *r, int mode, plan_t *p)
     p->cfg[CF_JUNK] = 1 + prng_below(r, 254);
     p->cfg[CF_RPOLICY] = prng_below(r, 3);
     p->cfg[CF_BUDGET] = (uint64_t)1 << (14 + prng_below(r, 7));           /* 16 KiB .. 1 MiB */
-    p->cfg[CF_XTOR0] = prng_below(r, 4);
-    p->cfg[CF_XTOR1] = prng_below(r, 4);
+    p->cfg[CF_XTOR0] = prng_below(r, 8);      /* bit 0: constructor, bit 1: destructor, bit 2 (with both): one function serves as both */
+    p->cfg[CF_XTOR1] = prng_below(r, 8);
     p->cfg[CF_MAXN] = huge ? 66000 + prng_below(r, 4000) : longrun ? 500 + prng_below(r, 4000) : small ? 2 + prng_below(r, 5) : 4 + prng_below(r, 120);
     if (huge) { p->cfg[CF_BUDGET] = (uint64_t)1 << 23; p->cfg[CF_ES] = (uint64_t)(1u << prng_below(r, 4)); }
 
